@@ -15,9 +15,17 @@ CHECKS = [
   "text": "Partial. Decides the sufficient condition for race freedom among concurrent calls: no call writes memory another call can reach (C08's effect analysis over all concurrent entries; package-state writes only for parse/compile entries), the scanner goroutine and the parser share no lexer field but the channel, run closes the channel on every exit, and no goroutine is started on the render path. Schedules themselves are not explored.",
   "note": "Same trusted base as C08; channel operations are taken as synchronising; Bundle.recompiler (WatchFiles) is documented upstream as not goroutine-safe and is outside the property.",
   "technique": "static analysis: SSA effect analysis + field-access partition across the goroutine boundary"},
+ {"id": "C12",
+  "text": "Full for the stated clause. Error discipline decided on SSA for every input and writer at once: each call reachable from Renderer.Execute that writes to an io.Writer-typed operand has its error tested, with the failing branch raising or returning it to callers that do, and the entry installs the recover that turns the raise into the returned error (and assigns it on every recovered path). With sequential emission this gives: a failing write always surfaces, accepted bytes are a prefix, nil only if every write succeeded.",
+  "note": "Assumes writers honour the io.Writer contract (a short write reports an error); in-memory *bytes.Buffer writes (renderBlock) never fail and are exempt by construction.",
+  "technique": "static analysis: SSA error-result discipline (checked-or-propagated) + entry recover installation on go/cfg"},
+ {"id": "C18",
+  "text": "Full (structural). Acquire/release decided on the control-flow graph: every function that starts a scanner goroutine is covered on every returning path by a deferred drain, or by a draining recover handler together with reading the stream through its EOF token; the scanner returns its nil state right after an error item or EOF, closes its channel on every exit of run, and its loops end when input is exhausted.",
+  "note": "Paths that leave by re-panicking a runtime error do not return and are outside the property. A drain loop is taken to let every pending send complete.",
+  "technique": "static analysis: acquire/release pairing dataflow on go/cfg + terminal-item shape rules"},
 ]
 PENDING = "check under construction in this round (see DESIGN.md); not claimed until its rules are armed and validated"
 NOT_APPLICABLE = [(p, PENDING) for p in
-  ["C01","C03","C04","C06","C07","C10","C11","C12","C13","C14","C15","C17","C18","C19","C20"]] + [
+  ["C01","C03","C04","C06","C07","C10","C11","C13","C14","C15","C17","C19","C20"]] + [
  ("C16", "every clause is a decode(encode(x))=x / length / UTF-8 statement over all strings and integers; no structural necessary condition exists beyond those decided under C03/C04/C06"),
 ]
